@@ -10,4 +10,6 @@ require (
 	pgregory.net/rapid v1.3.0
 )
 
+require github.com/agnivade/levenshtein v1.2.1 // indirect
+
 replace github.com/vektah/gqlparser/v2 => /repo
